@@ -223,7 +223,9 @@ func main() {
 	{
 		flipped := 0
 		for _, t := range menu {
-			r := func(v v3.Vec) v3.Vec { return v3.Vec{X: float64(float32(v.X)), Y: float64(float32(v.Y)), Z: float64(float32(v.Z))} }
+			r := func(v v3.Vec) v3.Vec {
+				return v3.Vec{X: float64(float32(v.X)), Y: float64(float32(v.Y)), Z: float64(float32(v.Z))}
+			}
 			n64 := t[1].Sub(t[0]).Cross(t[2].Sub(t[0]))
 			n32 := r(t[1]).Sub(r(t[0])).Cross(r(t[2]).Sub(r(t[0])))
 			if n64.Dot(n32) < 0 {
@@ -436,6 +438,87 @@ func main() {
 				}
 			}
 		}
+	}
+	// (4b) well-formed ASCII files with a long preamble (round 9): solid names of 100..5000 characters and 1..600 blank
+	// lines before "solid" - the first facet lies beyond any prefix a loader may sniff
+	for _, nameLen := range []int{100, 480, 500, 520, 639, 1100, 5000} {
+		for _, blanks := range []int{0, 1, 100, 600, 5000} {
+			if nameLen != 100 && blanks != 0 && !(nameLen == 520 && blanks == 600) {
+				continue
+			}
+			for _, n := range []int{1, 7} {
+				ts := menu[:n]
+				var sb strings.Builder
+				sb.WriteString(strings.Repeat("\n", blanks) + "solid " + strings.Repeat("n", nameLen) + "\n")
+				for _, t := range ts {
+					sb.WriteString("facet normal 0 0 1\nouter loop\n")
+					for _, p := range t {
+						sb.WriteString("vertex " + fmt.Sprintf("%g %g %g", p.X, p.Y, p.Z) + "\n")
+					}
+					sb.WriteString("endloop\nendfacet\n")
+				}
+				sb.WriteString("endsolid\n")
+				p := filepath.Join(work, "ref.stl")
+				os.WriteFile(p, []byte(sb.String()), 0o644)
+				got, err := render.LoadSTL(p)
+				states++
+				desc := map[string]any{"solid_name_length": nameLen, "blank_lines_before_solid": blanks, "triangles": n}
+				if err != nil || len(got) != n {
+					c.Violation("LoadSTL|ascii|long-preamble|count-or-error", fmt.Sprintf("ASCII file with a solid name of %d characters after %d blank lines, %d facets: %d triangles, err %v", nameLen, blanks, n, len(got), err), desc)
+					continue
+				}
+				for k, t := range ts {
+					for q := 0; q < 3; q++ {
+						var w v3.Vec
+						fmt.Sscanf(fmt.Sprintf("%g %g %g", t[q].X, t[q].Y, t[q].Z), "%g %g %g", &w.X, &w.Y, &w.Z)
+						if got[k][q] != w {
+							c.Violation("LoadSTL|ascii|long-preamble|vertex", fmt.Sprintf("facet %d vertex %d: loaded %v, file says %v", k, q, got[k][q], w), desc)
+						}
+					}
+				}
+			}
+		}
+	}
+	// (5) histories of loads and saves (round 9): a foreign binary file whose records carry non-zero attribute bytes (the
+	// colour words other tools write) and a non-zero header is loaded, then lists are saved by both writers: the bytes
+	// written are those of a process that never loaded anything
+	for _, nf := range []int{3, 1030, 2500} {
+		fb := new(bytes.Buffer)
+		hdr := bytes.Repeat([]byte{0xAB}, 80)
+		fb.Write(hdr)
+		binary.Write(fb, binary.LittleEndian, uint32(nf))
+		for i := 0; i < nf; i++ {
+			binary.Write(fb, binary.LittleEndian, [12]float32{0, 0, 1, float32(i), 0, 0, float32(i) + 1, 0, 0.5, float32(i), 1, 0.25})
+			fb.Write([]byte{0x1f, 0xfc})
+		}
+		fp := filepath.Join(work, "foreign.stl")
+		os.WriteFile(fp, fb.Bytes(), 0o644)
+		got, err := render.LoadSTL(fp)
+		states++
+		desc := map[string]any{"history": "LoadSTL of a foreign file with attribute bytes 1f fc, then SaveSTL / ToSTL", "foreign_triangles": nf}
+		if err != nil || len(got) != nf {
+			c.Violation("LoadSTL|foreign-binary-file|count-or-error", fmt.Sprintf("binary file of %d triangles with non-zero attribute bytes: %d triangles, err %v", nf, len(got), err), desc)
+			continue
+		}
+		for _, ts := range [][]*sdf.Triangle3{menu[:1], menu[:5], long(300), long(1100)} {
+			p1, p2 := filepath.Join(work, "h5.save.stl"), filepath.Join(work, "h5.stream.stl")
+			if err := render.SaveSTL(p1, ts); err != nil {
+				c.Violation("SaveSTL|error|after-a-load", err.Error(), desc)
+				continue
+			}
+			b1, _ := os.ReadFile(p1)
+			checkBytes(c, "SaveSTL-after-LoadSTL", b1, ts, desc)
+			render.ToSTL(dummy{}, p2, scripted{ts})
+			b2, _ := os.ReadFile(p2)
+			checkBytes(c, "ToSTL-after-LoadSTL", b2, ts, desc)
+			if !bytes.Equal(b1, b2) {
+				c.Violation("ToSTL|bytes-differ-from-SaveSTL|after-a-load", fmt.Sprintf("after loading a foreign file: ToSTL wrote %d bytes, SaveSTL %d bytes for the same %d triangles", len(b2), len(b1), len(ts)), desc)
+			}
+			os.Remove(p1)
+			os.Remove(p2)
+			states++
+		}
+		os.Remove(fp)
 	}
 	samples = append(samples, map[string]any{"ascii_reference_files": "LF/CRLF, %g/%e/%.9f, leading blanks and tabs, 1/2/7/40 facets"})
 	c.Guard("vertices compared bit-for-bit > 10000 (files were written, parsed and loaded back)", trans > 10000, fmt.Sprint(trans))
